@@ -200,6 +200,7 @@ func VerifC12cMap(n int) {
 	args.Serverless = true
 	args.Mode = omode.MapClient
 	args.Quiet = true
+	args.Timeout = []int{0, 5}[verifrt.Choose("timeout", 2)]
 	c := MaprClient{baseClient: baseClient{Args: args}}
 	q, err := mapr.NewQuery(queryStr)
 	verifrt.Assert(err == nil, "client rejects the query")
@@ -217,6 +218,18 @@ func VerifC12cMap(n int) {
 		sh.Write(c12Send(ch, cmd))
 	}
 	files := map[string]bool{}
+	if args.Timeout > 0 {
+		// known: with --timeout the read commands are encoded as "timeout N cat file regex",
+		// a command word the server does not decode: nothing is read
+		select {
+		case <-shandlers.VerifGlobCh:
+			verifrt.Assert(false, "C12-KF1 is listed but the server now executes the read commands of a request with a timeout: remove the finding")
+		case <-time.After(time.Second):
+		}
+		verifrt.Finding("C12-KF1", sh.VerifQuery() == queryStr)
+		verifrt.Reach("timeout-form")
+		return
+	}
 	for i := 0; i < 2; i++ {
 		select {
 		case g := <-shandlers.VerifGlobCh:
